@@ -101,8 +101,11 @@ def run_case(ctx, st, pt, P: Pep, rule, missed, semi, primary_rt):
     for rt in [primary_rt] + [r for r in RETURN_TYPES if r != primary_rt]:
         st.case = {}
         try:
-            list(pt.digest(text if ctx.rng.random() < 0.7 else pt.parse(text), rule, missed, semi,
-                           return_type=rt))
+            r = ctx.rng.random()
+            # the protein as text, as a parsed annotation, or as an equal annotation whose modification dictionary
+            # and interval list are out of positional order (decoys from reverse(), programmatic construction)
+            arg = text if r < 0.6 else pt.parse(text) if r < 0.75 else rp.scrambled(pt, text, ctx.rng)
+            list(pt.digest(arg, rule, missed, semi, return_type=rt))
             results[rt] = st.case.get('result')
         except Exception as ex:
             ctx.decided()
